@@ -125,8 +125,13 @@ def follow(P, R, f, before, reads):
     if lj:
         FOLLOW = {c for c in rejected_not if isinstance(c, int) and c != 0} | {ord('}')}
 
+        reader = (last.ev.get('rhs') or {}).get('callee')
+
         def on_event(st, s):
             if s.ev['k'] == 'store' and is_var(s.ev.get('lhs'), chv):
+                return frozenset()
+            # a read of the next token into another variable (an inner scope's own `ch`) ends what was known, too
+            if s.ev['k'] in ('store', 'decl') and reader and ((s.ev.get('rhs') if s.ev['k'] == 'store' else s.ev.get('init')) or {}).get('callee') == reader:
                 return frozenset()
             return st
 
